@@ -175,11 +175,20 @@ type Scenario struct {
 	// served by the same grpc.Server.
 	Target    string   `json:"target,omitempty"`
 	Listeners []string `json:"listeners,omitempty"`
+
+	exts []Ext // built by Validate
 }
 
 func (s *Scenario) SchedP() *core.Sched { return &s.Sched }
 
 func (s *Scenario) Validate() error {
+	// Extension configs are decoded here, outside the bubble (Validate runs in
+	// the worker before core.Run): encoding/json goes through process-global
+	// sync.Map caches whose depth - hence number of scheduling points - would
+	// otherwise depend on what the process decoded before.
+	if err := s.buildExts(); err != nil {
+		return err
+	}
 	seen := map[uint32]bool{}
 	for i := range s.RPCs {
 		r := &s.RPCs[i]
